@@ -47,7 +47,8 @@ def run_one(sid: str, tier: str, props: list[str] | None, seed: int = 0) -> dict
             return out
         for p in props:
             t0 = time.time()
-            env = dict(os.environ, PVM_POREPY_SRC=str(wt / "src"), VERIF_SEED=str(seed))
+            env = dict(os.environ, PVM_POREPY_SRC=str(wt / "src"), VERIF_SEED=str(seed),
+                       PVM_TIMEOUT_SCALE=os.environ.get("PVM_TIMEOUT_SCALE", "4"))
             for attempt in range(2):
                 r = subprocess.run([str(ROOT / "check"), p, "--tier", tier, "--no-evidence"],
                                    cwd=str(ROOT), env=env, text=True, capture_output=True)
